@@ -186,7 +186,17 @@ def run(ch, idx, tier):
         return {f"fcn{i}": [f"{a}+{b}", f"{a}/({b}+1)", f"2*{a}"][ch.choose(f"out[{i}].form", 3)]}
 
     def gen_pops():
-        kind = ch.choose("pops.kind", 5)
+        kind = ch.choose("pops.kind", 6)
+        if kind == 5 and len(pops) >= 2:
+            # two (possibly overlapping) groups of different membership in one call, optionally after a plain population
+            g1 = ch.shuffle("pops.g1", pops)[: 1 + ch.choose("pops.g1n", len(pops))]
+            g2 = ch.shuffle("pops.g2", pops)[: 1 + ch.choose("pops.g2n", len(pops))]
+            if sorted(g1) == sorted(g2):
+                g2 = [p_ for p_ in pops if p_ not in g1][:1] or g2[:1]
+            out_ = [{"first group": g1}, {"second group": g2}]
+            if ch.flip("pops.plain_first", 0.3):
+                out_ = [pops[0]] + out_
+            return out_
         if kind == 0 or len(pops) == 1 and kind < 3:
             return None
         if kind == 1:
